@@ -93,6 +93,19 @@ class Other(Instrumented, Config):
     s: Param[str] = "s0"
 
 
+class Named(Instrumented, Config):
+    """Explicit type identifier given as a plain string."""
+
+    __xpmid__ = "xvmodels.custom.named"
+    v: Param[int]
+
+
+class NamedChild(Named):
+    """No __xpmid__ of its own: its type identifier is the default one (module.qualname), not the parent's string."""
+
+    w: Param[int] = 0
+
+
 class Node(Instrumented, Config):
     child: Param[Leaf]
     opt: Param[Optional[Leaf]]
@@ -109,6 +122,7 @@ class Node(Instrumented, Config):
     mchild: Meta[Optional[Leaf]]
     mitems: Meta[List[Leaf]] = []
     dflt: Param[Leaf] = Leaf(i=7)
+    named: Param[Optional[Named]]
     dlist: Param[List[int]] = [1, 2]
     ddict: Param[Dict[str, int]] = {"a": 1}
 
